@@ -183,13 +183,21 @@ func (s *serviceImpl) Receive(m *net.Message, from Channel) error {
 	return nil
 }
 
-// Terminate calls OnTerminate on all its objects.
+// Terminate removes all the objects and calls OnTerminate on each of
+// them: like Remove, outside of the lock (OnTerminate may use the
+// service) and once (the objects are not there anymore for a later
+// Remove).
 func (s *serviceImpl) Terminate() error {
-	s.RLock()
-	defer s.RUnlock()
+	s.Lock()
+	objects := s.objects
+	s.objects = make(map[uint32]Actor)
+	s.boxes = make(map[uint32]MailBox)
+	s.Unlock()
 
-	for _, obj := range s.objects {
-		obj.OnTerminate()
+	for _, obj := range objects {
+		if obj != nil {
+			obj.OnTerminate()
+		}
 	}
 	if s.terminate != nil {
 		s.terminate()
